@@ -907,3 +907,122 @@ Proof.
     destruct (is_announced (e_status e)) eqn:Ea; [|reflexivity]. cbn [negb].
     rewrite (Hia e _ He Ea). reflexivity.
 Qed.
+
+(* ---- every address record of a response is an address of a registered service that lies in a
+        subnet of the receiving interface (C18: only those addresses are sent there) --------------- *)
+
+Definition addr_rec_on_link (inp : hq_input) (r : rr) : Prop :=
+  match r_data r with
+  | RAddr o => exists e a, In e (h_services inp) /\ In a (s_addrs (e_svc e)) /\
+                           addr_on_intf (h_intf inp) a = true /\ o = ip_octets a
+  | _ => True
+  end.
+
+Lemma in_unknown m l r : In r (unknown m l) -> In r l.
+Proof. unfold unknown. intros H. apply filter_In in H. tauto. Qed.
+
+Lemma sp_addr_on_link inp e host l :
+  In e (h_services inp) ->
+  (forall a, In a l -> In a (s_addrs (e_svc e)) /\ addr_on_intf (h_intf inp) a = true) ->
+  forall r, In r (map (sp_addr host) l) -> addr_rec_on_link inp r.
+Proof.
+  intros He Hl r Hr. apply in_map_iff in Hr as [a [<- Ha]]. unfold addr_rec_on_link. simpl.
+  exists e, a. destruct (Hl a Ha). auto.
+Qed.
+
+Lemma link_addrs_on_link k intf v4 s a :
+  In a (link_addrs k intf v4 s) -> In a (s_addrs s) /\ addr_on_intf intf a = true.
+Proof. unfold link_addrs. intros H. apply filter_In in H as [H1 H2]. apply andb_true_iff in H2. tauto. Qed.
+Lemma link_v4_on_link intf s a : In a (link_v4 intf s) -> In a (s_addrs s) /\ addr_on_intf intf a = true.
+Proof. unfold link_v4. intros H. apply filter_In in H as [H1 H2]. apply andb_true_iff in H2. tauto. Qed.
+Lemma link_v6_on_link intf s a : In a (link_v6 intf s) -> In a (s_addrs s) /\ addr_on_intf intf a = true.
+Proof. unfold link_v6. intros H. apply filter_In in H as [H1 H2]. apply andb_true_iff in H2. tauto. Qed.
+
+Lemma spec_question_on_link k inp v4 q r :
+  In r (fst (spec_question k (h_name_changes inp) (h_intf inp) (h_msg inp) v4 (h_services inp) q)
+        ++ snd (spec_question k (h_name_changes inp) (h_intf inp) (h_msg inp) v4 (h_services inp) q)) ->
+  addr_rec_on_link inp r.
+Proof.
+  unfold spec_question. destruct (q_type q =? 12); cbn [fst snd]; intros H;
+    repeat (apply in_app_or in H as [H|H]).
+  - (* PTR answers of services *)
+    apply in_flat_map in H as [e [He H]]. unfold spec_ptr_entry in H.
+    destruct (answerable _ _ _ e); [|destruct H].
+    unfold with_additionals in H.
+    repeat match type of H with
+           | context [if ?c then _ else _] => destruct c; cbn [fst snd] in H
+           end; try destruct H as [<-|[]]; try destruct H; exact I.
+  - (* meta *)
+    unfold spec_meta in H. destruct (beq _ _); [|destruct H].
+    apply in_unknown, in_map_iff in H as [t [<- _]]. exact I.
+  - (* additionals of PTR answers *)
+    apply in_flat_map in H as [e [He H]]. unfold spec_ptr_entry in H.
+    destruct (answerable _ _ _ e); [|destruct H].
+    assert (Hadds : forall r, In r (sub_ptr (h_name_changes inp) (e_svc e)
+                                    ++ svc_additionals k (h_name_changes inp) (h_intf inp) v4 (e_svc e)) ->
+                              addr_rec_on_link inp r).
+    { intros r0 H0. apply in_app_or in H0 as [H0|H0].
+      - unfold sub_ptr in H0. destruct (s_sub (e_svc e)); [destruct H0 as [<-|[]]; exact I|destruct H0].
+      - unfold svc_additionals in H0. destruct H0 as [<-|[<-|H0]]; try exact I.
+        eapply sp_addr_on_link; [exact He| |exact H0]. intros a Ha. eapply link_addrs_on_link. exact Ha. }
+    unfold with_additionals in H.
+    repeat match type of H with
+           | context [if ?c then _ else _] => destruct c; cbn [fst snd] in H
+           end; try (destruct H; fail); try (apply Hadds; exact H).
+    apply Hadds. apply in_or_app. right. exact H.
+  - (* address answers *)
+    apply in_flat_map in H as [e [He H]]. unfold spec_addr_entry in H.
+    destruct (_ && _); [|destruct H]. apply in_unknown in H.
+    eapply sp_addr_on_link; [exact He| |exact H]. intros a Ha. apply in_app_or in Ha as [Ha|Ha].
+    + destruct ((q_type q =? 1) || (q_type q =? 255)); [eapply link_v4_on_link; exact Ha|destruct Ha].
+    + destruct ((q_type q =? 28) || (q_type q =? 255)); [eapply link_v6_on_link; exact Ha|destruct Ha].
+  - (* SRV / TXT answers *)
+    apply in_flat_map in H as [e [He H]]. unfold spec_inst_entry in H.
+    destruct (_ && _); [|destruct H]. cbn [fst] in H. apply in_unknown in H.
+    apply in_app_or in H as [H|H].
+    + destruct ((q_type q =? 33) || (q_type q =? 255)); [destruct H as [<-|[]]; exact I|destruct H].
+    + destruct ((q_type q =? 16) || (q_type q =? 255)); [destruct H as [<-|[]]; exact I|destruct H].
+  - (* address additionals of an SRV question *)
+    apply in_flat_map in H as [e [He H]]. unfold spec_inst_entry in H.
+    destruct (_ && _); [|destruct H]. cbn [snd] in H. destruct (q_type q =? 33); [|destruct H].
+    eapply sp_addr_on_link; [exact He| |exact H]. intros a Ha. eapply link_addrs_on_link. exact Ha.
+Qed.
+
+Lemma spec_lists_on_link k inp v4 r :
+  In r (spec_answers k (h_name_changes inp) (h_intf inp) (h_msg inp) v4 (h_services inp)
+        ++ spec_additionals k (h_name_changes inp) (h_intf inp) (h_msg inp) v4 (h_services inp)) ->
+  addr_rec_on_link inp r.
+Proof.
+  unfold spec_answers, spec_additionals. intros H.
+  apply in_app_or in H as [H|H]; apply in_flat_map in H as [q [_ H]];
+    apply (spec_question_on_link k inp v4 q); apply in_or_app; [left|right]; exact H.
+Qed.
+
+Lemma addr_rec_clear_flush inp r : addr_rec_on_link inp (clear_flush r) <-> addr_rec_on_link inp r.
+Proof. unfold addr_rec_on_link, clear_flush. simpl. tauto. Qed.
+
+Theorem response_carries_link_addresses inp p :
+  wf_input inp = true -> handle_query inp = Some p ->
+  Forall (addr_rec_on_link inp) (p_answers p ++ p_additionals p).
+Proof.
+  intros Hwf Hq. pose proof (model_is_spec_code inp Hwf) as He. rewrite Hq in He.
+  unfold spec in He. cbv zeta in He.
+  destruct (is_nil (spec_answers _ _ _ _ _ _)); [destruct He|].
+  destruct (negb _); [destruct He|].
+  destruct He as (_ & _ & _ & _ & _ & Ha & Hd). cbn [p_answers p_additionals] in Ha, Hd.
+  apply Forall_forall. intros r Hr.
+  assert (Hspec : forall r0,
+            In r0 (spec_answers code_quirks (h_name_changes inp) (h_intf inp) (h_msg inp) (is_v4 (h_src_ip inp)) (h_services inp)) \/
+            In r0 (spec_additionals code_quirks (h_name_changes inp) (h_intf inp) (h_msg inp) (is_v4 (h_src_ip inp)) (h_services inp)) ->
+            addr_rec_on_link inp r0).
+  { intros r0 H0. apply (spec_lists_on_link code_quirks inp (is_v4 (h_src_ip inp))). apply in_or_app. exact H0. }
+  apply in_app_or in Hr as [Hr|Hr].
+  - eapply Permutation_in in Hr; [|exact Ha].
+    destruct (legacy inp).
+    + apply in_map_iff in Hr as [r0 [<- Hr]]. apply addr_rec_clear_flush. apply Hspec. left. exact Hr.
+    + apply Hspec. left. exact Hr.
+  - eapply Permutation_in in Hr; [|exact Hd].
+    destruct (legacy inp).
+    + apply in_map_iff in Hr as [r0 [<- Hr]]. apply addr_rec_clear_flush. apply Hspec. right. exact Hr.
+    + apply Hspec. right. exact Hr.
+Qed.
